@@ -6,6 +6,7 @@ package world
 import (
 	"sort"
 	"strings"
+	"syscall"
 
 	_ "errsim/gen" // harness types register their codecs in init()
 
@@ -52,6 +53,11 @@ func InitBase() {
 // Keys returns the sorted union of all registered type keys.
 func Keys() []string { return baseKeys }
 
+var (
+	keyErrno       = string(errbase.GetTypeKey(syscall.Errno(0)))
+	keyOpaqueErrno = string(errbase.GetTypeKey(&errbase.OpaqueErrno{}))
+)
+
 // Profile is the type knowledge of a simulated process.
 type Profile struct {
 	Name    string
@@ -67,6 +73,25 @@ func Full() *Profile {
 // Minus returns a profile lacking the given keys.
 func Minus(name string, removed []string) *Profile {
 	p := &Profile{Name: name, Reg: Base.Clone(), Unknown: map[string]bool{}}
+	// the stand-in for an errno of another platform is registered together
+	// with the errno adapter (same file of errbase): a process has both or none
+	rm := map[string]bool{}
+	for _, k := range removed {
+		rm[k] = true
+	}
+	if rm[keyErrno] != rm[keyOpaqueErrno] {
+		if rm[keyErrno] {
+			removed = append(append([]string(nil), removed...), keyOpaqueErrno)
+		} else {
+			kept := removed[:0:0]
+			for _, k := range removed {
+				if k != keyOpaqueErrno {
+					kept = append(kept, k)
+				}
+			}
+			removed = kept
+		}
+	}
 	for _, k := range removed {
 		tk := errbase.TypeKey(k)
 		delete(p.Reg.LeafEncoders, tk)
